@@ -8,6 +8,7 @@ use super::{
         flow::FlowItem,
         list::{ListStyle, ListStylist},
     },
+    style::FoldStyle,
     util::is_comment_node,
     ArenaDoc, Context, PrettyPrinter,
 };
@@ -91,7 +92,14 @@ impl<'a> PrettyPrinter<'a> {
             import_items_nodes.sort_by_key(|&node| import_item_sort_key(node));
         }
         // Note that `ImportItem` does not implement `AstNode`.
+        // On a line mixed with text nothing may be broken, or the next run sees a multiline node.
+        let fold_style = if ctx.break_suppressed {
+            FoldStyle::Always
+        } else {
+            FoldStyle::Fit
+        };
         ListStylist::new(self)
+            .with_fold_style(fold_style)
             .process_iterable_impl(
                 ctx,
                 import_items_nodes.into_iter(),
